@@ -17,6 +17,8 @@ import numpy as np
 import scipy, scipy.linalg, scipy.interpolate, scipy.sparse, scipy.sparse.linalg
 from common import *
 
+SHARD_SIZE = 130      # the spline cases do an exact Gauss-Jordan each: smaller shards balance the 16 cores (common.run_shards)
+
 IMPORTS = ("From CV Require Import Base.Cmp Base.QcLin Model.C18_PDE.\n"
            "From Coq Require Import QArith Qcanon ZArith.")
 RULE = ("PDE instances with <=6 nodes and <=6 time levels (quick) / <=7 (thorough): every (method x time grid kind x solver kind "
@@ -2444,6 +2446,52 @@ def case_observe_4d(cuqi, rng, q, gkind, tkind):
                 cell="td/observe-3dspace/%s/%s" % (gkind, tkind), kind="DECISION", impl_fail=fail, signature="TimeDependentLinearPDE.observe" if fail else "")
 
 
+def case_observe_outside(cuqi, rng, q, where, om0):
+    """observation nodes / times OUTSIDE the data rectangle on the spline route, samples of a bicubic polynomial: fitpack evaluates
+    at the nearest boundary point, so the answer is the polynomial at the clamped point (C18_interp2_cubic_reproduces_bicubics).
+    where: 'space' | 'time' | 'both' | 'far'"""
+    n, nt = rng.randint(4, 6), rng.randint(4, 6)
+    times = gen_times(rng, rng.choice(["uniform", "nonuniform"]), nt)
+    gs = [v / 4.0 for v in sorted(rng.sample(range(0, 21), n))]
+    dx, dtm = (8.0, 8.0) if where == "far" else (rng.choice([0.125, 2.0 ** -30]), rng.choice([0.125, 2.0 ** -30]))
+    go = sorted({gs[0] + (gs[-1] - gs[0]) * rng.randint(1, 31) / 32.0 for _ in range(rng.randint(1, 3))})
+    tobs = sorted({times[0] + (times[-1] - times[0]) * rng.randint(1, 31) / 32.0 for _ in range(rng.randint(1, 3))})
+    if where in ("space", "both", "far"):
+        go = [gs[0] - dx] + go + [gs[-1] + dx] if rng.random() < 0.6 else go + [gs[-1] + dx]
+    if where in ("time", "both", "far"):
+        tobs = [times[0] - dtm] + tobs + [times[-1] + dtm] if rng.random() < 0.6 else [times[0] - dtm] + tobs
+    om = fix_omap(rng, gen_omap(rng, om0, len(go)), len(go))
+    C = bicubic(rng)
+    U = np.array([[float(bicubic_eval(C, x, t)) for t in times] for x in gs])
+    cfg = {"af": None, "times": times, "method": "forward_euler", "solver": "default", "tag": 0, "gsol": gs, "gobs": go, "tobs": tobs, "tobs_as_array": True, "omap": om}
+    rec = Recorder()
+    with Patches(rec):
+        pde = mk_td(cuqi, cfg, rec, form=lambda p, t: (np.eye(n), np.zeros(n), np.zeros(n)))
+        o = outcome(lambda: pde.observe(U))
+    fail = None
+    clampv = lambda v, lo, hi: min(max(v, lo), hi)
+    if o[0] == "ok":
+        E = np.array([[float(bicubic_eval(C, clampv(x, gs[0], gs[-1]), clampv(t, times[0], times[-1]))) for t in tobs] for x in go])
+        pm = pymap(om)
+        try:
+            E = np.asarray(pm(E[:, 0]) if (pm and len(tobs) == 1) else E[:, 0] if len(tobs) == 1 else pm(E) if pm else E, dtype=float)
+            if not arr_close(o[1], E, 1e-9, obs_floor(cfg, U)):
+                fail = ("observe() of samples of a bicubic polynomial at points outside the data rectangle (grid_obs=%s, time_obs=%s; nodes %s..%s, times %s..%s): "
+                        "got %s, the polynomial at the nearest boundary points is %s" % (go, tobs, gs[0], gs[-1], times[0], times[-1],
+                                                                                      np.asarray(o[1]).ravel()[:6].tolist(), E.ravel()[:6].tolist()))
+        except Exception:
+            pass
+    else:
+        probe = outcome(lambda: pymap(om)(np.zeros((len(go), len(tobs)))) if pymap(om) else 0)
+        if probe[0] == "ok":
+            fail = "observe() raised %s for observation points outside the data rectangle (scipy evaluates them at the boundary)" % o[1]
+    ot = "(Ok (%s, %s))" % (cbool(len(rec.i2) > 0), carr(o[1])) if o[0] == "ok" else "(Er %s)" % ecode(o[1])
+    expr = "check_td_observe %s %s %s %s %s %s %s %s %s %s && %s" % (cquirks(q), cgrid(gs), cgrid(go), qcv(times), ctobs(tobs), comap(om), enc_i2(rec), ctol("12"),
+                                                                  qcols(U), ot, cbool(interp_args_ok(rec)))
+    return Case(expr=expr, meta={"kind": "observe_outside", "where": where, "omap": om, "times": times, "gsol": gs, "gobs": go, "tobs": tobs, "C": C},
+                cell="td/observe-outside/%s/%s" % (where, om[0]), impl_fail=fail, signature="TimeDependentLinearPDE.observe" if fail else "")
+
+
 # ---------------- grids bookkeeping ----------------
 def case_grids(cuqi, rng, n):
     def rg():
@@ -3366,6 +3414,10 @@ def run(ctx):
             kk += 1
             om0 = som[kk % len(som)]
             cases.add("ss/observe-alone/%s" % variant, "ss_observe", lambda: case_ss_observe(cuqi, rng, variant, om0))
+    for _ in range(ctx.n(1, 6)):
+        for where in ["space", "time", "both", "far"]:
+            for om0 in ["none", "scale", "first"]:
+                cases.add("td/observe-outside/%s" % where, "observe_outside", lambda: case_observe_outside(cuqi, rng, q, where, om0))
     for conv in RET_CONVENTIONS:
         for steady in (True, False):
             cases.add("solver-convention/%s" % conv, "solver_convention", lambda: case_solver_convention(cuqi, rng, conv, steady))
@@ -3389,7 +3441,14 @@ def run(ctx):
             for shape in [(4, 4), (3, 3), (4, 2), (2, 4), (1, 3), (3, 1)]:
                 cases.add("gradient", "gradient", lambda: case_gradient(cuqi, rng, hg, hj, rng.random() < 0.5, shape))
     cases_testproblems(cuqi, ctx, q, cases)
-    return Result(cases=list(cases), rule=RULE,
+    # the shipped test problems run the in-model splines / Gauss-Jordan on their default grids (one case costs 5-60 s of
+    # vm_compute): spread them over the shards (one per shard) instead of leaving them together in the last one
+    _all = list(cases)
+    _heavy = [c for c in _all if c.cell.startswith("testproblem/")]
+    _light = [c for c in _all if not c.cell.startswith("testproblem/")]
+    for _j, _c in enumerate(_heavy):
+        _light.insert(min(_j * SHARD_SIZE, len(_light)), _c)
+    return Result(cases=_light, rule=RULE,
                   extra={"tree_state": q},
                   assumptions=["real linear solvers (scipy.linalg.solve, user solvers) enter the model as the table of the calls they answered; "
                                "the law A x = b is checked on every entry to 1e-9 per component",
@@ -3427,6 +3486,11 @@ def oracle(ctx, meta):
         cs = [case_tp_poisson(cuqi, q, meta["dim"], meta["ogm"], meta["x"], meta.get("field"))]
     elif k == "tp_heat":
         cs = [case_tp_heat(cuqi, q, meta["dim"], meta["max_time"], meta["ogm"], meta["x"], meta.get("field"))]
+    elif k == "ss_observe":
+        cs = [case_ss_observe(cuqi, None, meta["variant"], None, inputs=meta["inputs"])]
+    elif k == "solver_convention":
+        import random
+        cs = [case_solver_convention(cuqi, random.Random(0), meta["conv"], meta["steady"])]
     for c in cs:
         if c.impl_fail:
             return c.impl_fail
@@ -3481,6 +3545,55 @@ def replay(ctx, meta):
         for i, c in enumerate(cs):
             rc, out = eval_in_coq(IMPORTS, c.expr, tag="replay_C18")
             print("call %d, x=%s: oracle: %s ; model check: %s" % (i, m["plist"][i], c.impl_fail or "ok", out[-60:].replace("\n", " ")))
+        return 0
+    if k == "ss_observe":
+        gs, go, sol, coef, om = m["inputs"]
+        print("SteadyStateLinearPDE(grid_sol=%s, grid_obs=%s, observation_map=%s).observe(%s)" % (gs, go, om, sol))
+        if coef is not None:
+            print("the solution is the quadratic %s + %s x + %s x^2 on grid_sol" % tuple(coef))
+        pde = cuqi.pde.SteadyStateLinearPDE(lambda p: (np.eye(len(gs)), p), grid_sol=np.array(gs), grid_obs=np.array(go), observation_map=pymap(om))
+        print("implementation:", outcome(lambda: np.asarray(pde.observe(np.array(sol, dtype=float)))))
+        c = case_ss_observe(cuqi, None, m["variant"], None, inputs=m["inputs"])
+        print("independent oracle:", c.impl_fail or "property holds on this case")
+        rc, out = eval_in_coq(IMPORTS, c.expr, tag="replay_C18")
+        print("model check (true = the in-model quadratic spline agrees with the implementation):", out[-200:])
+        rc, out = eval_in_coq(IMPORTS, "ss_observe (omap_fun %s) interp1_quad (init_grids %s %s) %s" % (comap(om), cgrid(gs), cgrid(go), qcv(sol)), tag="replay_C18")
+        print("model value:", out[-1500:])
+        return 0
+    if k == "solver_convention":
+        import random
+        c = case_solver_convention(cuqi, random.Random(0), m["conv"], m["steady"])
+        print("linalg_solve answering in the convention %r (%s): expression %s" % (m["conv"], "steady" if m["steady"] else "backward Euler", c.expr))
+        print("independent oracle:", c.impl_fail or "property holds on this case")
+        rc, out = eval_in_coq(IMPORTS, c.expr, tag="replay_C18")
+        print("model check:", out[-200:])
+        return 0
+    if k in ("observe3d", "observe4d"):
+        sol = np.array(m["sol"], dtype=float)
+        n1 = sol.shape[0]
+        g = [0.5 * i for i in range(n1)]
+        gs, go = {"none": (None, None), "equal": (g, list(g))}.get(m["gkind"], (g, [v + 0.25 for v in g]))
+        tobs = m["tobs"]
+        pde = cuqi.pde.TimeDependentLinearPDE(lambda p, t: (np.eye(n1), np.zeros(n1), p), np.array(m["times"]), time_obs=np.array(tobs) if isinstance(tobs, list) else tobs,
+                                              grid_sol=aslist(gs), grid_obs=aslist(go))
+        print("solution of shape %s, time_steps=%s, time_obs=%s, grids %s" % (sol.shape, m["times"], tobs, m["gkind"]))
+        o = outcome(lambda: np.asarray(pde.observe(sol)))
+        print("implementation: observe() ->", o if o[0] == "err" else ("ok, shape %s" % (o[1].shape,), o[1].tolist()))
+        ti = [idx_of(t, m["times"]) for t in (tobs if isinstance(tobs, list) else [m["times"][-1]] if tobs.lower() == "final" else m["times"])]
+        if all(i is not None for i in ti):
+            print("stored slices at the requested times (time axis last):", sol[..., ti].tolist())
+        return 0
+    if k == "observe_outside":
+        gs, go, times, tobs, C, om = m["gsol"], m["gobs"], m["times"], m["tobs"], m["C"], m["omap"]
+        U = np.array([[float(bicubic_eval(C, x, t)) for t in times] for x in gs])
+        pde = cuqi.pde.TimeDependentLinearPDE(lambda p, t: (np.eye(len(gs)), np.zeros(len(gs)), np.zeros(len(gs))), np.array(times), time_obs=np.array(tobs),
+                                              grid_sol=np.array(gs), grid_obs=np.array(go), observation_map=pymap(om))
+        print("samples of the bicubic polynomial with coefficients C[a][b] (x^a t^b) = %s on grid_sol=%s x time_steps=%s" % (C, gs, times))
+        print("grid_obs=%s time_obs=%s observation_map=%s" % (go, tobs, om))
+        print("implementation: observe() ->", outcome(lambda: np.asarray(pde.observe(U)).tolist()))
+        cl = lambda v, lo, hi: min(max(v, lo), hi)
+        print("the polynomial at the nearest points of the data rectangle (before the observation map):",
+              [[float(bicubic_eval(C, cl(x, gs[0], gs[-1]), cl(t, times[0], times[-1]))) for t in tobs] for x in go])
         return 0
     print("re-run the generator with the stored seed to reproduce this case kind:", k)
     return 0
